@@ -256,6 +256,28 @@ class Package:
                 return n
         return ast.fix_missing_locations(R().visit(copy.deepcopy(fn)))
 
+    def records(self) -> dict:
+        """{class name: (field, ...)} of the immutable record types of the package: `class X(NamedTuple)` with annotated fields,
+        `X = namedtuple("X", "a b" | ["a", "b"])`.  `X(u, v).a` is `u` (valueflow.Flow(records=..))."""
+        if "_records" not in self.__dict__:
+            out = {}
+            for ci in self.classes.values():
+                if any(b.split(".")[-1] == "NamedTuple" for b in ci.bases) and "." not in ci.name:
+                    fields = [s.target.id for s in ci.node.body if isinstance(s, ast.AnnAssign) and isinstance(s.target, ast.Name)]
+                    if fields and "__new__" not in ci.methods:
+                        out[ci.name] = tuple(fields)
+            for mod in self.modules.values():
+                for s in mod.body:
+                    if isinstance(s, ast.Assign) and len(s.targets) == 1 and isinstance(s.targets[0], ast.Name) and isinstance(s.value, ast.Call) \
+                            and ast.unparse(s.value.func) in ("namedtuple", "collections.namedtuple") and len(s.value.args) == 2 and not s.value.keywords:
+                        f = s.value.args[1]
+                        if isinstance(f, ast.Constant) and isinstance(f.value, str):
+                            out[s.targets[0].id] = tuple(f.value.replace(",", " ").split())
+                        elif isinstance(f, (ast.List, ast.Tuple)) and all(isinstance(e, ast.Constant) and isinstance(e.value, str) for e in f.elts):
+                            out[s.targets[0].id] = tuple(e.value for e in f.elts)
+            self.__dict__["_records"] = out
+        return self.__dict__["_records"]
+
     def subclasses(self, base: str) -> list:
         return [c for c in self.classes if base in self.mro(c)[1:]]
 
